@@ -35,6 +35,23 @@ class SymRng:
             self.tag = "seed%s" % seed
         self.k = 0
 
+    class _BitGen:
+        """rng.bit_generator.state: saving and restoring the state = saving and restoring the cursor of the stream"""
+        def __init__(self, rng):
+            self._rng = rng
+
+        @property
+        def state(self):
+            return {"bit_generator": "SymStream", "state": {"tag": self._rng.tag, "k": self._rng.k}}
+
+        @state.setter
+        def state(self, st):
+            self._rng.tag, self._rng.k = st["state"]["tag"], st["state"]["k"]
+
+    @property
+    def bit_generator(self):
+        return SymRng._BitGen(self)
+
     def _draw(self, n):
         out = [SR(z3.Real("u_%s_%d" % (self.tag, self.k + i))) for i in range(n)]
         self.k += n
@@ -226,6 +243,11 @@ def _ob_stream(W, kind, blocks, init_filter):
     # and the stream continues identically afterwards
     t1, t2 = g1.get_series(2), g2.get_series(2)
     W.goal("continues-identically", _eq_arrays(W, list(t1), list(t2)))
+    # a third instance with the same seed, built AFTER the first two have been used, starts the same stream again
+    g3 = mk_gen(W, G, kind, 11, init_filter)
+    n3 = min(total, 3)
+    if n3:
+        W.goal("later same-seed instance reproduces the stream", _eq_arrays(W, list(g3.get_series(n3)), list(whole)[:n3]))
 
 
 def ob_seed(W, kind):
